@@ -311,6 +311,51 @@ def fan(n):
     vs = [(0.0, 0.0, 0.0)] + [(math.cos(2 * math.pi * k / n) * 50, math.sin(2 * math.pi * k / n) * 50, 0.01 * (k % 5)) for k in range(n)]
     return vs, [(0, 1 + k, 1 + (k + 1) % n) for k in range(n)]
 
+def torus(p, q, R=3.0, r=1.0):
+    """closed genus-1 surface: p x q grid, p*q vertices, 2*p*q triangles (more than 2n-4), consistently wound"""
+    vs = []
+    for i in range(p):
+        for j in range(q):
+            a = 2 * math.pi * i / p; b = 2 * math.pi * j / q
+            vs.append(((R + r * math.cos(b)) * math.cos(a), (R + r * math.cos(b)) * math.sin(a), r * math.sin(b)))
+    ts = []
+    for i in range(p):
+        for j in range(q):
+            a = i * q + j; b = ((i + 1) % p) * q + j; c = ((i + 1) % p) * q + (j + 1) % q; d = i * q + (j + 1) % q
+            ts += [(a, b, c), (a, c, d)]
+    return vs, ts
+
+def double_torus(p, q):
+    """genus 2: two tori side by side, one quad (two triangles) removed from each and the two holes joined by a tube of 8 triangles"""
+    v1, t1 = torus(p, q); v2, t2 = torus(p, q)
+    n = len(v1); v2 = [(x + 9.0, y, z) for x, y, z in v2]
+    def quad(off): return [off + 0, off + q, off + q + 1, off + 1]          # cell (0,0): a, b, c, d
+    t1 = t1[2:]; t2 = t2[2:]                                                  # drop cell (0,0) of each
+    A = quad(0); B = quad(n)
+    base = list(t1) + [tuple(x + n for x in t) for t in t2]
+    # tube between the two square holes: try the few ways of pairing/winding and keep the one that is consistently wound
+    for rev in (False, True):
+        for rot in range(4):
+            for flipt in (False, True):
+                L1 = A; L2 = [B[(rot + (-k if rev else k)) % 4] for k in range(4)]
+                tube = []
+                for k in range(4):
+                    u0, u1 = L1[k], L1[(k + 1) % 4]; w0, w1 = L2[k], L2[(k + 1) % 4]
+                    tube += [(u0, u1, w1), (u0, w1, w0)]
+                if flipt: tube = [(a_, c_, b_) for a_, b_, c_ in tube]
+                if locally_consistent(base + tube): return v1 + v2, base + tube
+    return v1 + v2, base + tube
+
+def three_sheets(k=3):
+    """non-manifold: three fans of k triangles meeting along the common edge 0-1 (three triangles on that edge)"""
+    vs = [(0.0, 0.0, 0.0), (0.0, 0.0, 1.0)]; ts = []
+    for s in range(3):
+        a = 2 * math.pi * s / 3 + 0.2; prev = None
+        for j in range(1, k + 1):
+            vs.append((j * math.cos(a), j * math.sin(a), 0.5 + 0.1 * j)); cur = len(vs) - 1
+            ts.append((0, 1, cur) if prev is None else (prev, 1, cur) if j % 2 == 0 else (0, prev, cur)); prev = cur
+    return vs, ts
+
 def size_pass(ck, hb, tooldir, rng, quick):
     """block-size boundaries, implementation only (no model run: these meshes are large): triangle and vertex counts at powers of
     two and their neighbours, every format; the before/after relation must hold"""
@@ -706,6 +751,16 @@ def main(replay=None):
             _, vs, ts = gen_mesh(rng, allow_bad=False)
             for fmt in range(4):
                 cases.append(case_roundtrip(fmt, 2, vs, ts)); labels.append("roundtrip:no-update")
+        # topology family (deterministic): tori p x q (2n triangles), genus 2, three sheets on one edge, doubled triangles with both windings
+        topo = [("torus%dx%d" % (p, q), torus(p, q)) for p, q in ((3, 3), (3, 4), (4, 6), (5, 5), (6, 8))]
+        topo += [("genus2", double_torus(3, 4)), ("genus2b", double_torus(4, 5)), ("three-sheets", three_sheets(3)),
+                 ("both-windings", ([(0.0, 0.0, 0.0), (1.0, 0.0, 0.0), (0.0, 1.0, 0.0), (0.0, 0.0, 1.0)], [(0, 1, 2), (0, 2, 1), (0, 1, 3), (0, 3, 1), (1, 2, 3), (1, 3, 2)]))]
+        for nm, (vs, ts) in topo:
+            mag = 10.0 ** rng.randint(-3, 3); vs = [tuple(c * mag for c in v) for v in vs]
+            for fmt in range(4):
+                for flags in ((1, 0) if nm in ("three-sheets", "both-windings") else (1,)):
+                    cases.append(case_roundtrip(fmt, flags, vs, ts)); labels.append("roundtrip:" + nm)
+            cases.append(case_writer(rng.randint(0, 4), 1, len(cases), vs, ts)); labels.append("writer:" + nm)
         # block-size boundaries (model and implementation): exactly 2^k triangles, exactly 2^k vertices, and neighbours, every format
         near = [511, 513, 1023, 1025, 2047, 2049, 255, 257]
         for fmt in range(4):
